@@ -76,6 +76,8 @@ type Fn struct {
 	// pointer-typed value-group members produced by this function are nil pointers: values
 	// without identity (only their NUMBER can be observed; see the anonymous-values stream)
 	NilMembers bool `json:"nil_members"`
+	// Invoke calls issued from inside this function's callback after a successful execution
+	CbNested []Nested `json:"cb_nested"`
 }
 
 type Nested struct {
@@ -886,6 +888,13 @@ func (r *runner) cb(f *Fn) dig.Callback {
 		ev := Event{Ev: "cb", F: f.ID, Rt: int64(ci.Runtime), Name: ci.Name}
 		ev.Err = classify(ci.Error)
 		r.events = append(r.events, ev)
+		// a callback that looks at the container it reports about (after a successful execution the
+		// function's results are already there)
+		if ci.Error == nil && r.nested != nil {
+			for _, n := range f.CbNested {
+				r.nested(n.Scope, n.Fn)
+			}
+		}
 	}
 }
 
